@@ -54,6 +54,9 @@ def family(seed, tier):
         s = chain("c07-%d" % k, seed * 1000 + k, L, pip10_at=rnd.choice([10**6, 9, 9 + L // 2, 11]), P=rnd.choice([4, 4, 6, 8]),
                   scale="small" if k % 5 == 4 else "wide")
         docs.append((s.s["name"], s.doc()))
+    for k in range(1 if tier == "quick" else 3):
+        g = scen.snapshot_gap_chain(seed * 7 + k, name="c07-snapgap-%d" % k, pip10=(None if k % 2 == 0 else 150))
+        docs.append((g.s["name"], g.doc()))
     return docs
 
 
